@@ -114,7 +114,9 @@ def truth(case):
                 reasons.append('oob:' + sem)
             if ncomp != ARITY.get(sem, 3):
                 reasons.append('arity:' + sem)
-    return sorted(set(reasons)), cols, n
+    order = ['src-stride', 'ragged', 'vcount-total']
+    reasons = sorted(set(reasons), key=lambda r: (order.index(r) if r in order else 3 if r.startswith('oob') else 4, r))
+    return reasons, cols, n
 
 
 # ----------------------------------------------------------------------------- generator
@@ -537,6 +539,32 @@ def shrink(case, sig):
                         cur, changed = c, True
                     else:
                         break
+        # drop extra <vertices> entries and sources nothing refers to
+        for i in range(len(cur['verts']) - 1, 0, -1):
+            c = copy.deepcopy(cur)
+            del c['verts'][i]
+            if still(c):
+                cur, changed = c, True
+        for si in range(len(cur['sources']) - 1, -1, -1):
+            used = [r for _, _, r, _ in cur['inputs'] if r != 'v'] + [r for _, r in cur['verts']]
+            if si not in used:
+                c = copy.deepcopy(cur)
+                del c['sources'][si]
+                for x in c['inputs']:
+                    if x[2] != 'v' and x[2] > si:
+                        x[2] -= 1
+                for x in c['verts']:
+                    if x[1] > si:
+                        x[1] -= 1
+                if still(c):
+                    cur, changed = c, True
+        # smaller offsets (closes gaps)
+        for i in range(len(cur['inputs'])):
+            if cur['inputs'][i][0] > 0:
+                c = copy.deepcopy(cur)
+                c['inputs'][i][0] -= 1
+                if still(c):
+                    cur, changed = c, True
         # smaller entries, smaller sources
         for pi in range(len(cur['polys'])):
             for j in range(len(cur['polys'][pi])):
@@ -566,7 +594,7 @@ def run(ctx):
                 '0,1,..,2^31,2^32,2^40 at a random position of a checked or any column, ragged stream, vcount total off / <p> lengths '
                 'shifted, source data length off, wrong arity, shuffled stream. Non-trivial = non-empty stream; distinct = distinct '
                 'specification')
-    ncases = ctx.n(6000, 200000)
+    ncases = ctx.n(25000, 300000)
     cases = []
     for _ in range(ncases):
         c, mode = gen_case(ctx.rng)
